@@ -153,3 +153,86 @@ contract(
     note="the projector ones - (n-1) identity is modelled as a structured matrix (alpha ones + beta identity); samples are stated "
          "through SUMRANGE(jacks, 1, n+1); restoring the original samples is the arithmetic lemma `round-trip` of export_jackknife",
 )
+
+
+# ---------------------------------------------------------------------------------------------------
+# export_bootstrap / import_bootstrap: the single-chain guard is proved; the resampling itself (numpy RNG, bincount, lstsq) is outside
+# the reach of the prover and is exercised natively: sample s of the export is the mean of the resampled data, and import inverts export
+
+import ast  # noqa: E402
+
+
+def _eb_slice(mod, fnode):
+    out = []
+    for st in fnode.body:
+        if isinstance(st, ast.Expr) and isinstance(st.value, ast.Constant):
+            continue
+        out.append(st)
+        if isinstance(st, ast.Assign) and isinstance(st.targets[0], ast.Name) and st.targets[0].id == "length":
+            return out
+    from pyvc.sym import CheckerError
+    raise CheckerError("contract no longer binds: `length = self.N` not found in export_bootstrap")
+
+
+def _eb_native(args):
+    o = args["self"]
+    rn = args.get("_random_numbers")
+    return {"boots": o.export_bootstrap(samples=args["samples"], random_numbers=rn), "default": o.export_bootstrap(samples=args["samples"])}
+
+
+def _eb_gen(rng, case):
+    import numpy as np
+    from pyvc.native import repo_module
+    pe = repo_module("pyerrors.obs")
+    if case["self"] == "two":
+        return {"self": JK_SPEC["two"].random(rng), "samples": 20, "random_numbers": None, "save_rng": None, "_random_numbers": None}
+    n = rng.choice([6, 9, 14])
+    r = np.random.default_rng(rng.randint(0, 10 ** 6))
+    o = pe.Obs([r.normal(size=n) + 2.0], ["A|r1"], idl=[range(3, 3 + 2 * n, 2)] if case["self"] == "range" else None)
+    samples = rng.choice([n, n + 5, 40])
+    return {"self": o, "samples": samples, "random_numbers": None, "save_rng": None, "_random_numbers": r.integers(0, n, size=(samples, n))}
+
+
+JK_SPEC = {k: _ObsOn(v, 5) for k, v in JK_LAYOUTS.items()}
+
+
+def _eb_post(a, r):
+    if isinstance(a.self, SObj):
+        return {"single chain": True, "length is the number of configurations": eq(r.length, A(a.self, "N"))}
+    import numpy as np
+    from pyvc.native import repo_module
+    pe = repo_module("pyerrors.obs")
+    o = a.self
+    name = o.names[0]
+    x = o.deltas[name] + o.r_values[name]
+    rn = a.__dict__["_random_numbers"]
+    boots = r["boots"]
+    ok = len(boots) == a.samples + 1 and np.isclose(boots[0], o.value)
+    ok = ok and all(np.isclose(boots[s + 1], np.mean(x[rn[s]]), rtol=1e-12, atol=1e-14) for s in range(a.samples))
+    out = {"sample s is the mean of the data resampled with row s of the random numbers": bool(ok)}
+    # the default table only depends on the chain name and has the right shape for THIS observable
+    d = r["default"]
+    out["default resampling: one mean per sample, within the range of the data"] = bool(
+        len(d) == a.samples + 1 and np.all(d[1:] >= np.min(x) - 1e-12) and np.all(d[1:] <= np.max(x) + 1e-12))
+    proj = np.vstack([np.bincount(row, minlength=len(x)) for row in rn]) / len(x)
+    if a.samples >= len(x) and np.linalg.matrix_rank(proj) == len(x) and np.linalg.cond(proj) < 1e6:
+        # the resampling matrix determines the data uniquely: only then can the import invert the export
+        back = pe.import_bootstrap(boots, name, rn)
+        out["import inverts export"] = bool(np.allclose(back.deltas[name] + back.r_values[name], x, rtol=1e-8, atol=1e-9) and np.isclose(back.value, o.value))
+    return out
+
+
+contract(
+    REL + "::Obs.export_bootstrap", name=REL + "::Obs.export_bootstrap[guard; resampling checked natively]", props=["C13"],
+    slice=_eb_slice,
+    params=dict(self=Custom(lambda n, c, s: None, variants=lambda: [(k, v) for k, v in JK_SPEC.items()]),
+                samples=Const(20), random_numbers=Const(None), save_rng=Const(None)),
+    raises=[("ValueError", lambda a: len(names_of(a.self)) != 1)],
+    ensures=_eb_post,
+    native_call=_eb_native, gen=_eb_gen, crosscheck=False, refute=False,
+    bounded="resampling identities of export_bootstrap / import_bootstrap: native sampling only (12 inputs per case in the quick tier, 80 in "
+            "the thorough tier; chains of 6..14 configurations, 6..40 bootstrap samples); only the single-chain guard is a discharged obligation",
+    slice_note="the statements up to `length = self.N` (rejection of observables with more than one chain); the resampling (numpy random "
+               "numbers, bincount, matrix product) and import_bootstrap (least squares) are NOT verified deductively - they are exercised "
+               "natively only (bounded sampling): sample s == mean of the resampled data, default table usable, import(export) == identity",
+)
